@@ -40,5 +40,5 @@ from .sendwhole import SendMaybeContract
 UNITS = [s, r, LemmaUnit('C04.bound lemma', bound_lemmas), SendMaybeContract()]
 
 # the publisher's client table is keyed by `client id + connection id`; that different connections present different keys is discharged on the consumer side (contracts/c05.py)
-from .c05 import ConnIdentityUnit
+from .recvinit import ConnIdentityUnit
 UNITS.append(ConnIdentityUnit())
